@@ -383,7 +383,7 @@ theorem step_wait7e (cap depth : Nat) (rl : Readline) (r : Ref) (c : Byte) (h : 
 
 theorem zip_eta (z : Zip) : (⟨z.left, z.right⟩ : Zip) = z := by cases z; rfl
 
-theorem historyUp_ok (cap depth : Nat) (hd2 : depth ≤ 255) (rl : Readline) (hist : List (List Byte))
+theorem historyUp_ok (cap depth : Nat) (rl : Readline) (hist : List (List Byte))
     (hL : SlineOK rl.line) (hcap : rl.line.cap = cap) (hH : HistOK cap depth rl hist) (hbr : rl.curhist ≤ depth) :
     (rl.curhist = depth → rl.historyUp = (rl, 0)) ∧
     (rl.curhist ≠ depth → ∃ L : Sline, rl.historyUp =
@@ -395,13 +395,12 @@ theorem historyUp_ok (cap depth : Nat) (hd2 : depth ≤ 255) (rl : Readline) (hi
     rw [hH.hasHist, hH.hsize]
     simp [hfull]
   · intro hne
-    have hm : (rl.curhist + 1) % 256 = rl.curhist + 1 := Nat.mod_eq_of_lt (by omega)
     obtain ⟨L, e, l1, l2, l3⟩ := load_ok cap depth { rl with curhist := rl.curhist + 1 } hist hL hcap
       (histOK_of_eq rl _ rfl rfl rfl rfl rfl hH) (by simp only; omega)
     simp only [Nat.add_one_ne_zero, if_false, Nat.add_sub_cancel] at l3
     refine ⟨L, ?_, l1, l2, l3⟩
     unfold Readline.historyUp
-    rw [hm, e]
+    rw [e]
     simp [hH.hasHist, hH.hsize, hne]
 
 theorem historyDown_ok (cap depth : Nat) (rl : Readline) (hist : List (List Byte))
@@ -431,7 +430,7 @@ theorem historyDown_ok (cap depth : Nat) (rl : Readline) (hist : List (List Byte
         have e2 : rl.curhist - 1 - 1 = rl.curhist - 2 := by omega
         rw [e2]
 
-theorem step_move (cap depth : Nat) (hd : 1 ≤ depth) (hd2 : depth ≤ 255) (rl : Readline) (r : Ref) (c : Byte)
+theorem step_move (cap depth : Nat) (hd : 1 ≤ depth) (rl : Readline) (r : Ref) (c : Byte)
     (h : RSim cap depth rl r) (hs : r.esc = .move) : RStep cap depth c r (rl.putchar c) := by
   have hst : rl.state = .move := by rw [h.st, hs]
   obtain ⟨hL, hcap, hH, hlast, hcur, hbr, _, hzip⟩ := h
@@ -446,7 +445,7 @@ theorem step_move (cap depth : Nat) (hd : 1 ≤ depth) (hd2 : depth ≤ 255) (rl
   · -- Up
     subst hA
     simp only [if_true]
-    obtain ⟨u1, u2⟩ := historyUp_ok cap depth hd2 rl r.hist hL hcap hH hbr'
+    obtain ⟨u1, u2⟩ := historyUp_ok cap depth rl r.hist hL hcap hH hbr'
     rw [hH.slen]
     by_cases hfull : rl.curhist = depth
     · rw [u1 hfull, if_neg (by omega)]
@@ -677,12 +676,12 @@ theorem step_normal (cap depth : Nat) (hd : 1 ≤ depth) (rl : Readline) (r : Re
         · first | trivial | (intro _; rfl) | (intro _; trivial)
 
 /-- one byte through `readline_putchar` against the reference decoder, any state -/
-theorem rstep (cap depth : Nat) (hd : 1 ≤ depth) (hd2 : depth ≤ 255) (rl : Readline) (r : Ref) (c : Byte)
+theorem rstep (cap depth : Nat) (hd : 1 ≤ depth) (rl : Readline) (r : Ref) (c : Byte)
     (h : RSim cap depth rl r) : RStep cap depth c r (rl.putchar c) := by
   cases hs : r.esc with
   | normal => exact step_normal cap depth hd rl r c h hs
   | escseq => exact step_escseq cap depth rl r c h hs
-  | move => exact step_move cap depth hd hd2 rl r c h hs
+  | move => exact step_move cap depth hd rl r c h hs
   | wait7e => exact step_wait7e cap depth rl r c h hs
 
 end Igris.C15
